@@ -470,6 +470,6 @@ CLAIM = {
             "plain list model denotes, IndexError exactly outside [-n, n), and no operation valid on a list may raise; length "
             "bookkeeping is n+1 / n+k / n-1 / 0 symbolically. Bounded histories (length <= 4, thorough 6) of append / bulk append of 0, 2, "
             "3 rows / delete(first, last, -1, -2) / flush on the repository's class with bucket sizes 2 and 3, with and without "
-            "drop-oldest, are executed abstractly and compared with the list model after every step. Not decided: longer histories, returned values. Histories include appending a view of the array's own last row.",
+            "drop-oldest, are executed abstractly and compared with the list model after every step. Not decided: longer histories, returned values. Histories include appending a view of the array's own last row. No in-place reshape of the backing array (R6); memo / derived-field invalidation completeness (R5).",
     "note": "Trusted: interpreter semantics; numpy slice semantics of the backing array modelled by Python list slicing.",
 }
